@@ -5,6 +5,7 @@ import (
 	"encoding/json"
 	"fmt"
 	"net"
+	"net/netip"
 	"strings"
 	"time"
 
@@ -125,6 +126,18 @@ func c12Fault(w *world.World, r *world.Remote, el c12Elem) int64 {
 		}
 		r.Send(wire.Open(64999, 90, 0x0a000002))
 		return readNotif()
+	case el.Kind == "sent-plugin-rst":
+		// the plugin refuses a valid OPEN with a NOTIFICATION, but the connection is reset (RST) while the
+		// callback runs, so the NOTIFICATION can no longer be written: the protocol error happened all the same
+		if _, ok := r.Expect(wire.TypeOpen); !ok {
+			return -1
+		}
+		w.SetFlag(fmt.Sprintf("arm-plugin-rst-%d", r.C.ID))
+		r.Send(wire.Open(65002, 90, 0x0a000002))
+		t := vrt.Cur().Now()
+		r.Deadline(2 * time.Second)
+		r.Drain()
+		return t
 	case el.Kind == "sent-header":
 		if !reach(r, stEstablished, 65002, 90) {
 			return -1
@@ -148,6 +161,26 @@ func c12Fault(w *world.World, r *world.Remote, el c12Elem) int64 {
 			return -1
 		}
 		return readNotif()
+	case strings.HasPrefix(el.Kind, "rcvburst@"):
+		// the NOTIFICATION rides behind another message in the same segment and the connection is closed right
+		// behind it: "rcvburst@1" [OPEN][NOTIFICATION(3,1)][FIN] in OpenSent, "rcvburst@2" [UPDATE][NOTIFICATION(3,1)][FIN]
+		// in Established - the FSM is busy with the first message when the NOTIFICATION and the end of stream arrive
+		var st int
+		fmt.Sscanf(el.Kind, "rcvburst@%d", &st)
+		if st == 1 {
+			if _, ok := r.Expect(wire.TypeOpen); !ok {
+				return -1
+			}
+			r.Send(append(wire.Open(65002, 90, 0x0a000002), wire.Notification(3, 1, nil)...))
+		} else {
+			if !reach(r, stEstablished, 65002, 90) {
+				return -1
+			}
+			r.Send(append(wire.Update([]byte{0, 0, 0, 0}), wire.Notification(3, 1, nil)...))
+		}
+		t := vrt.Cur().Now()
+		r.C.Close()
+		return t
 	case strings.HasPrefix(el.Kind, "rcv"):
 		// "rcv<code>@<state>" (subcode 1) or "rcv<code>.<subcode>@<state>"
 		var code, st int
@@ -252,6 +285,17 @@ func c12Run(cs c12Case, ch vrt.Chooser, trace bool) (*world.World, *vrt.Exec, *c
 				return &corebgp.Notification{Code: 3, Subcode: 1}
 			case "CEASE":
 				return &corebgp.Notification{Code: 6, Subcode: 4}
+			}
+			return nil
+		}
+		rstDone := map[int]bool{}
+		pl.OpenNotif = func(netip.Addr, []corebgp.Capability) *corebgp.Notification {
+			for _, r := range w.Remotes {
+				if id := r.C.ID; w.Flag(fmt.Sprintf("arm-plugin-rst-%d", id)) && !rstDone[id] {
+					rstDone[id] = true
+					r.C.Reset()
+					return &corebgp.Notification{Code: 2, Subcode: 7}
+				}
 			}
 			return nil
 		}
@@ -488,11 +532,12 @@ func c12ErrKinds(full bool) []c12Elem {
 			{Kind: "sent-badopen", Dir: "out"}, {Kind: "sent-badopen", Dir: "in"}, {Kind: "sent-header", Dir: "out"}, {Kind: "sent-fsm", Dir: "in"},
 			{Kind: "sent-update", Dir: "out"}, {Kind: "sent-hold", Dir: "in"}, {Kind: "rcv1@0", Dir: "out"}, {Kind: "rcv2@1", Dir: "in"},
 			{Kind: "rcv3@2", Dir: "out"}, {Kind: "rcv4@2", Dir: "in"}, {Kind: "rcv5@1", Dir: "out"}, {Kind: "rcv7@2", Dir: "in"},
+			{Kind: "rcvburst@1", Dir: "out"}, {Kind: "rcvburst@1", Dir: "in"}, {Kind: "rcvburst@2", Dir: "out"}, {Kind: "rcvburst@2", Dir: "in"},
 		}
 	}
 	var out []c12Elem
 	for _, d := range []string{"out", "in"} {
-		for _, k := range []string{"sent-badopen", "sent-header", "sent-fsm", "sent-update", "sent-hold"} {
+		for _, k := range []string{"sent-badopen", "sent-header", "sent-fsm", "sent-update", "sent-hold", "sent-plugin-rst"} {
 			out = append(out, c12Elem{Kind: k, Dir: d})
 		}
 		for _, c := range []int{1, 2, 3, 4, 5, 7} {
@@ -500,6 +545,7 @@ func c12ErrKinds(full bool) []c12Elem {
 				out = append(out, c12Elem{Kind: fmt.Sprintf("rcv%d@%d", c, s), Dir: d})
 			}
 		}
+		out = append(out, c12Elem{Kind: "rcvburst@1", Dir: d}, c12Elem{Kind: "rcvburst@2", Dir: d})
 	}
 	return out
 }
